@@ -34,7 +34,7 @@ DoRet(a, k, v) == /\ doOK' = (doOK /\ k \in DOMAIN fval /\ fval[k] = v)
 GetCall(a, k) == /\ getMust' = Put(getMust, a, k \in doRetSeen)
                  /\ UNCHANGED <<fcount, fval, doRetSeen, doOK, getOK, getBlocked, ended>>
 GetRet(a, k, v, blocked) ==
-     /\ getOK' = (getOK /\ IF v = Nil THEN ~Get(getMust, a, FALSE)
+     /\ getOK' = (getOK /\ IF v = Nil THEN (~Get(getMust, a, FALSE) \/ (k \in DOMAIN fval /\ fval[k] = Nil))   \* nil: not yet computed, or the value is nil
                                       ELSE k \in DOMAIN fval /\ fval[k] = v)
      /\ getBlocked' = (getBlocked \/ blocked)
      /\ UNCHANGED <<fcount, fval, doRetSeen, getMust, doOK, ended>>
